@@ -255,7 +255,7 @@ def _sets_of(coarse_value):
     return tuple(frozenset(c[1]) for c in coarse_value[1])
 
 
-def check_cfg(cfg, used, assigned, mode, param, nvars, max_deviations=None):
+def check_cfg(cfg, used, assigned, mode, param, nvars, max_deviations=None, strategy="replay"):
     """Explore all schedules of one analysis on one CFG and compare with the oracle.
     used/assigned: per-block sets the ORACLE uses.  Returns (report, symptoms, extra)
     where symptoms = list of (symptom, detail)."""
@@ -301,7 +301,8 @@ def check_cfg(cfg, used, assigned, mode, param, nvars, max_deviations=None):
         raise HarnessBug(mode)
 
     res = schedx.explore(thunk, explore_filter=flt, explore_invocations=1, branch="first",
-                         outcome_of=lambda v: None, max_deviations=max_deviations)
+                         outcome_of=lambda v: None, max_deviations=max_deviations,
+                         strategy=strategy)
     if len(res.invocations) != 1:
         raise HarnessBug(f"expected one explored invocation, got {len(res.invocations)}")
     rep = res.invocations[0]
@@ -526,7 +527,32 @@ def _account(agg, rep, symptoms, extra, shaped, has_dummy, mode, param, descr, i
             tgt[key] = {"count": 1, "what": f"{descr}: {detail}", "item": dict(item, symptom=sym)}
 
 
-def eval_graph(task):
+def _safe(fn):
+    """Workers must not let a BaseException (ExplorerError, ReplayDivergence, HarnessBug)
+    escape: it would kill the pool process and hang the run.  It is returned instead
+    and re-raised by run() as a harness error."""
+    import functools
+
+    @functools.wraps(fn)
+    def wrapped(task):
+        try:
+            return fn(task)
+        except BaseException as e:  # noqa: BLE001
+            import traceback
+            return {"harness_error": f"{type(e).__name__}: {e}", "task": repr(task)[:400],
+                    "tb": traceback.format_exc()[-1500:]}
+    return wrapped
+
+
+def _raise_harness_errors(results):
+    bad = [r for r in results if isinstance(r, dict) and "harness_error" in r]
+    if bad:
+        raise HarnessBug(f"{len(bad)} worker error(s), first: {bad[0]['harness_error']} on "
+                         f"{bad[0]['task']}\n{bad[0]['tb']}")
+    return results
+
+
+def _eval_graph(task):
     """Worker: one graph, all stat codes and parameters of the requested modes."""
     import time
     n, real, dummy, modes, nvars, shaped, alph, only = task
@@ -545,10 +571,43 @@ def eval_graph(task):
     return agg
 
 
+eval_graph = _safe(_eval_graph)
+
+
 # ================================================= independence cross-check (small)
 
 
-def eval_independence(task):
+def _summary(res):
+    return ([(r.index, r.analysis, r.states, r.transitions, r.complete, r.pruned,
+              r.schedules_represented, r.cyclic,
+              tuple((f.fine, f.witness, f.devs, f.count) for f in r.finals))
+             for r in res.invocations], sorted(res.outcomes.items(), key=repr))
+
+
+def _eval_strategies(task):
+    """schedx's in-place strategy (used for whole-pipeline exploration, C10) must be
+    indistinguishable from the stateless replay strategy: same states, transitions,
+    pruned/complete counts, path counts, final results, witnesses."""
+    from vlib import schedx
+    n, real, dummy, nvars = task
+    compared = 0
+    for codes in _code_space(n, "LA", nvars):
+        cfg = build_cfg(n, real, dummy, codes, nvars)
+        thunk = lambda: cfg.analyze(set(), {"x"}, ["x"])  # noqa: E731
+        for k in (None, 1):
+            a = schedx.explore(thunk, outcome_of=lambda v: None, max_deviations=k)
+            b = schedx.explore(thunk, outcome_of=lambda v: None, max_deviations=k, strategy="inplace")
+            compared += 1
+            if _summary(a) != _summary(b):
+                raise HarnessBug("replay and in-place exploration disagree on "
+                                 + describe(n, real, dummy, codes, "LA", ("x",), nvars))
+    return compared
+
+
+eval_strategies = _safe(_eval_strategies)
+
+
+def _eval_independence(task):
     """CFG.analyze explored as the full product (branch='fine'): the assignment
     invocation must be the same exploration whatever liveness result preceded it."""
     from vlib import schedx
@@ -568,6 +627,9 @@ def eval_independence(task):
                              f"schedule: {describe(n, real, dummy, codes, 'LA', ('x',), nvars)}")
         checked += len(ass)
     return checked
+
+
+eval_independence = _safe(_eval_independence)
 
 
 # ======================================================= Part B: real builder CFGs
@@ -644,9 +706,9 @@ def shape_defects_of_cfg(cfg):
     return bad
 
 
-def eval_builder(task):
+def _eval_builder(task):
     import time
-    src, full_limit = task
+    src, full_limit, strategy = task
     t0 = time.process_time()
     cfg = build_from_source(src)
     n = len(cfg.bbs)
@@ -662,17 +724,22 @@ def eval_builder(task):
     k = None if n <= full_limit else 2
     for mode in ("LA", "AA", "LF"):
         for param in _params(mode):
-            rep, symptoms, extra = check_cfg(cfg, used, assigned, mode, param, 2, max_deviations=k)
+            rep, symptoms, extra = check_cfg(cfg, used, assigned, mode, param, 2, max_deviations=k,
+                                             strategy=strategy)
             agg["bounded"] += int(k is not None)
             descr = (f"{mode}[{_param_tag(mode, param)}] CFG of the real CFGBuilder for body "
                      f"{src!r}: n={n} real={ {b: list(r) for b, r in enumerate(real) if r} } "
                      f"dummy={ {b: list(d) for b, d in enumerate(dummy) if d} } "
                      f"used={ {b: sorted(u) for b, u in enumerate(used) if u} } "
                      f"assigned={ {b: sorted(a) for b, a in enumerate(assigned) if a} }")
-            item = {"part": "B", "src": src, "mode": mode, "param": param, "full_limit": full_limit}
+            item = {"part": "B", "src": src, "mode": mode, "param": param, "full_limit": full_limit,
+                    "n": n}
             _account(agg, rep, symptoms, extra, True, any(dummy), mode, param, descr, item)
     agg["cpu"] = time.process_time() - t0
     return agg
+
+
+eval_builder = _safe(_eval_builder)
 
 
 # =========================================================================== run
@@ -758,9 +825,9 @@ def run(ctx):
     samples = []
     # ---- Part A
     for label, tasks in _tasks_A(ctx.tier):
-        aggs = _pmap_balanced(ctx, eval_graph, tasks,
-                              lambda t: sum(map(len, t[1])) + sum(map(len, t[2])),
-                              chunk=4 if len(tasks) > 256 else 1)
+        aggs = _raise_harness_errors(_pmap_balanced(
+            ctx, eval_graph, tasks, lambda t: sum(map(len, t[1])) + sum(map(len, t[2])),
+            chunk=4 if len(tasks) > 256 else 1))
         part = _new_agg()
         for a in aggs:
             _merge(part, a)
@@ -777,14 +844,15 @@ def run(ctx):
     # ---- independence cross-check of the per-invocation exploration of CFG.analyze
     ind_tasks = [(n, real, dummy, 1) for n in (2, 3) for real, dummy in enum_graphs(n, 1, False)
                  if not builder_shape_defects(n, real, dummy)]
-    independence = sum(ctx.pmap(eval_independence, ind_tasks, chunk=2))
+    independence = sum(_raise_harness_errors(ctx.pmap(eval_independence, ind_tasks, chunk=2)))
+    strategies = sum(_raise_harness_errors(ctx.pmap(eval_strategies, ind_tasks, chunk=2)))
     # ---- Part B
-    b_bounds = [(2, 8)] if ctx.quick else [(3, 8), (4, 6)]
+    b_bounds = [(2, 8, "replay")] if ctx.quick else [(3, 8, "inplace"), (4, 6, "inplace")]
     built = n_cfgs = 0
     on_builder: dict = {}
     shape_bad = []
     seen_sigs = set()
-    for size, full_limit in b_bounds:
+    for size, full_limit, strategy in b_bounds:
         uniq = {}
         for s_ in builder_sources(size):
             cfg = build_from_source(s_)
@@ -798,16 +866,19 @@ def run(ctx):
         seen_sigs.update(uniq)
         if shape_bad:
             raise HarnessBug(f"CFGBuilder output violates the assumed shape invariants: {shape_bad[:3]}")
-        btasks = [(s_, full_limit) for s_ in sorted(uniq.values(), key=lambda s_: (len(s_), s_))]
+        btasks = [(s_, full_limit, strategy)
+                  for s_ in sorted(uniq.values(), key=lambda s_: (len(s_), s_))]
         n_cfgs += len(btasks)
         partB = _new_agg()
-        for a in _pmap_balanced(ctx, eval_builder, btasks, lambda t: len(t[0]), chunk=2):
+        for a in _raise_harness_errors(
+                _pmap_balanced(ctx, eval_builder, btasks, lambda t: len(t[0]), chunk=2)):
             _merge(partB, a)
         if partB["sample"]:
             samples.append(partB["sample"])
         on_builder.update(partB["viol"])
         label = (f"real CFGBuilder, bodies with <= {size} statements, every order for CFGs with "
-                 f"<= {full_limit} blocks, every order with <= 2 deviations above")
+                 f"<= {full_limit} blocks, every order with <= 2 deviations above "
+                 f"(schedx strategy: {strategy})")
         bounds.append({"bound": label, "new_distinct_cfgs": len(btasks),
                        "evaluations": partB["evaluations"], "states": partB["states"],
                        "deviation_bounded_evaluations": partB["bounded"]})
@@ -841,6 +912,7 @@ def run(ctx):
         "builder_shape_invariant_failures": len(shape_bad),
         "violation_classes_seen_on_real_builder_cfgs": {k: v["what"] for k, v in sorted(on_builder.items())},
         "independence_crosschecks": independence,
+        "replay_vs_inplace_strategy_crosschecks": strategies,
         "inout_nonterminating_cases_accepted_either_way": total["inout_nonterminating"],
         "oracle_mismatches_folded_into_order_dependence": total["order_dep_mismatches"],
         "general_shape_disagreements_counted_not_reported": sum(v["count"] for v in total["general"].values()),
